@@ -211,6 +211,12 @@ class Check:
         kf = load_known_findings()
         evdir = os.path.join(VERIF, "evidence")
         os.makedirs(os.path.join(evdir, "replay"), exist_ok=True)
+        import glob as _glob
+        for old in _glob.glob(os.path.join(evdir, "replay", f"{self.pid}-*.json")):
+            try:
+                os.remove(old)       # replay files of earlier runs of this property
+            except OSError:
+                pass
         broken = [(n, d) for (n, ok, d) in self.obligations if not ok]
         real = []
         for v in self.violations:
